@@ -35,6 +35,9 @@ void evFlush();
 long long evCount();
 // Splits "a/b/c" into ["a","b","c"] (JSON), dropping empty components.
 std::string pathJson(const std::string& rel);
+// "ab/c" -> [["a","b"],["c"]]: every component as a list of one-character strings (for specs that
+// match patterns character by character)
+std::string pathCharsJson(const std::string& rel);
 
 // Install std::terminate / fatal-signal handlers that append {"e":"Abort",...} and _exit(0)
 // so that a crashed execution yields a trace that no specification accepts.
